@@ -1,6 +1,7 @@
 package props
 
 import (
+	"strings"
 	"errors"
 	"fmt"
 
@@ -24,6 +25,7 @@ type PktSpec struct {
 	Payload []byte `json:"payload,omitempty"`
 	Type    uint16 `json:"type,omitempty"`
 	Body    []byte `json:"body,omitempty"`
+	Name    string `json:"client_name,omitempty"` // ta: computer name ("" = client-pc)
 	Mal     string `json:"mal,omitempty"` // "" | trunc | over | extra
 	MalN    int    `json:"mal_n,omitempty"`
 	Alias   *PktSpec `json:"same_bytes_as,omitempty"` // unk: the bytes of this packet, with the high byte of the 16-bit type set to Hi (an unknown type whose low byte names a known one)
@@ -132,12 +134,17 @@ func render(cfg histCfg, specs []PktSpec, clientIP string) (units [][]byte, evs 
 				}
 			}
 		case "ta":
-			b = tsgu.TunnelAuth("client-pc")
+			cname := "client-pc"
+			if p.Name != "" {
+				cname = p.Name
+			}
+			e.NameDenied = cfg.Opts.ClientNames && strings.HasPrefix(cname, "bad")
+			b = tsgu.TunnelAuth(cname)
 			switch p.Mal {
 			case "trunc":
 				b = cutBody(b, p.MalN%len(b[8:]))
 			case "over":
-				n := tsgu.UTF16("client-pc", true)
+				n := tsgu.UTF16(cname, true)
 				b = tsgu.TunnelAuthRaw(n, len(n)+2+p.MalN%64)
 			case "extra":
 				b = tsgu.Packet(tsgu.PktTunnelAuth, append(b[8:], make([]byte, 1+p.MalN%9)...))
@@ -237,6 +244,10 @@ func genHistory(t *rapid.T, o gwOpts) []PktSpec {
 			}
 		case "data":
 			p.Payload = genPayload(t, "data", 300)
+		case "ta":
+			if o.ClientNames && rapid.IntRange(0, 3).Draw(t, "badName") == 0 {
+				p.Name = rapid.SampledFrom([]string{"bad-pc", "badger", "bad"}).Draw(t, "clientName")
+			}
 		case "unk":
 			p.Type = rapid.SampledFrom(unknownTypes).Draw(t, "type")
 			p.Body = genPayload(t, "body", 40)
